@@ -223,3 +223,299 @@ Proof.
     rewrite LB3, X25. rewrite <- !app_assoc. reflexivity.
 Qed.
 End Shape.
+
+Lemma fieldN_lt' bs off sz : off + N.of_nat sz <= lenN bs -> fieldN bs off sz < 256 ^ N.of_nat sz.
+Proof.
+  intros L. unfold fieldN. pose proof (decode_lt (subN bs off (N.of_nat sz))) as D.
+  rewrite lenN_subN in D by exact L. exact D.
+Qed.
+
+Lemma subN_updN_inside bs off vs x k : off + lenN vs <= lenN bs -> x + k <= lenN vs ->
+  subN (updN bs off vs) (off + x) k = subN vs x k.
+Proof.
+  intros L I. unfold updN.
+  replace (off + x) with (lenN (takeN off bs) + x) by (rewrite lenN_takeN; lia).
+  rewrite subN_app_r'. apply subN_app_l. exact I.
+Qed.
+
+Section Roundtrip.
+Variables (m' : mode) (e name p bs2 hdr4 Y Z : list byte) (shift nraw noff : N).
+Let fh := pe_fh e.
+Let n := pe_n e.
+Let soh := pe_soh e.
+Let oh := pe_oh e.
+Let fa := pe_fa e.
+Let sh := pe_sh e.
+Let hend := pe_hend e.
+Let bs3 := updN bs2 hend hdr4.
+Let Zs := zerosN (noff - lenN bs2).
+Let Zp := zerosN (nraw - lenN p).
+Let Xn := encode_le 4 noff.
+Let e' := updN (updN (updN (bs3 ++ Zs ++ p ++ Zp) (hend + 20) Xn) (oh + 56) Y) (oh + 60) Z.
+
+Hypothesis W : wf_pe e.
+Hypothesis NOSEC : ~ pe_has_section e name.
+Hypothesis NOK : pe_name_ok name.
+Hypothesis L0 : 64 <= lenN e.
+Hypothesis SG : fieldN e (pe_sig e) 4 = 17744.
+Hypothesis N16 : n + 1 < 65536.
+Hypothesis LN : lenN name <= 8.
+Hypothesis LB2 : lenN bs2 = lenN e + shift.
+Hypothesis HE : hend + 40 <= lenN bs2.
+Hypothesis HL : hend <= lenN e.
+Hypothesis S5 : forall o k, o + k <= hend -> (forall j, j < n -> o + k <= sh + j * 40 + 20 \/ sh + j * 40 + 24 <= o) ->
+                 (o + k <= fh + 2 \/ fh + 4 <= o) -> subN bs2 o k = subN e o k.
+Hypothesis S6 : fieldN bs2 (fh + 2) 2 = n + 1.
+Hypothesis SHIFT : shift = 0 \/ 40 <= shift.
+Hypothesis S7 : forall o k, hend <= o -> subN bs2 (o + shift) k = subN e o k.
+Hypothesis S8 : forall j, j < n -> fieldN bs2 (sh + j * 40 + 20) 4 = pe_ptr e j + shift.
+Hypothesis LH4 : lenN hdr4 = 40.
+Hypothesis HN : subN hdr4 0 8 = name ++ zerosN (8 - lenN name).
+Hypothesis HR : fieldN hdr4 16 4 = nraw.
+Hypothesis NR1 : lenN p <= nraw.
+Hypothesis NR3 : nraw < 4294967296.
+Hypothesis NO1 : lenN bs2 <= noff.
+Hypothesis NO2 : noff < 4294967296.
+Hypothesis LY : lenN Y = 4.
+Hypothesis LZ : lenN Z = 4.
+
+Let Q1 := updN bs3 (hend + 20) Xn.
+Let Q2 := updN Q1 (oh + 56) Y.
+Let Q := updN Q2 (oh + 60) Z.
+
+Local Lemma SHd : sh = fh + 20 + soh. Proof. reflexivity. Qed.
+Local Lemma OHd : oh = fh + 20. Proof. reflexivity. Qed.
+Local Lemma FHd : fh = pe_sig e + 4. Proof. reflexivity. Qed.
+Local Lemma HEd : hend = sh + n * 40. Proof. reflexivity. Qed.
+Local Lemma WS : 64 <= pe_sig e. Proof. apply W. Qed.
+Local Lemma WO : 64 <= soh. Proof. apply W. Qed.
+Local Lemma LXn : lenN Xn = 4. Proof. unfold Xn. now rewrite lenN_encode. Qed.
+Local Lemma LB3 : lenN bs3 = lenN bs2. Proof. unfold bs3. apply lenN_updN. lia. Qed.
+Local Lemma SIG32 : pe_sig e < 4294967296.
+Proof. apply (fieldN_lt' e 60 4). change (N.of_nat 4) with 4. lia. Qed.
+Local Lemma SOH16 : soh < 65536.
+Proof.
+  pose proof SHd. pose proof HEd. pose proof FHd.
+  apply (fieldN_lt' e (fh + 16) 2). change (N.of_nat 2) with 2. lia.
+Qed.
+
+Local Lemma LQ1 : lenN Q1 = lenN bs2.
+Proof.
+  pose proof SHd. pose proof OHd. pose proof HEd. pose proof WO. pose proof LXn. pose proof LB3.
+  unfold Q1. rewrite lenN_updN; lia.
+Qed.
+Local Lemma LQ2 : lenN Q2 = lenN bs2.
+Proof.
+  pose proof SHd. pose proof OHd. pose proof HEd. pose proof WO. pose proof LQ1.
+  unfold Q2. rewrite lenN_updN; lia.
+Qed.
+Local Lemma LQ : lenN Q = lenN bs2.
+Proof.
+  pose proof SHd. pose proof OHd. pose proof HEd. pose proof WO. pose proof LQ2.
+  unfold Q. rewrite lenN_updN; lia.
+Qed.
+
+Local Lemma NF : e' = Q ++ Zs ++ p ++ Zp.
+Proof.
+  pose proof SHd. pose proof OHd. pose proof HEd. pose proof WO. pose proof LXn. pose proof LB3.
+  unfold e', Q, Q2, Q1. apply updN3_app_l; lia.
+Qed.
+
+Local Lemma LZs : lenN (Q ++ Zs) = noff.
+Proof. rewrite lenN_app, LQ. unfold Zs. rewrite lenN_zerosN. lia. Qed.
+
+Local Lemma Le' : lenN e' = noff + nraw.
+Proof.
+  rewrite NF, app_assoc, lenN_app, LZs, lenN_app. unfold Zp. rewrite lenN_zerosN. lia.
+Qed.
+
+(* reads below the new header, away from SizeOfImage/SizeOfHeaders: as in bs2 *)
+Local Lemma chain_sub o k : o + k <= hend + 20 -> (o + k <= oh + 56 \/ oh + 64 <= o) -> subN e' o k = subN bs3 o k.
+Proof.
+  intros D1 D2.
+  pose proof SHd. pose proof OHd. pose proof HEd. pose proof WO. pose proof LXn. pose proof LB3.
+  pose proof LQ1. pose proof LQ2.
+  rewrite NF. rewrite subN_app_l by (rewrite LQ; lia). unfold Q.
+  rewrite subN_updN_disj by lia. unfold Q2.
+  rewrite subN_updN_disj by lia. unfold Q1.
+  rewrite subN_updN_disj by lia. reflexivity.
+Qed.
+
+Local Lemma hdr_sub o k : o + k <= hend -> (forall j, j < n -> o + k <= sh + j * 40 + 20 \/ sh + j * 40 + 24 <= o) ->
+  (o + k <= fh + 2 \/ fh + 4 <= o) -> (o + k <= oh + 56 \/ oh + 64 <= o) -> subN e' o k = subN e o k.
+Proof.
+  intros D1 D2 D3 D4. rewrite chain_sub by lia. unfold bs3.
+  rewrite subN_updN_disj by lia. now apply S5.
+Qed.
+
+Local Lemma newhdr_sub x k : x + k <= 20 -> subN e' (hend + x) k = subN hdr4 x k.
+Proof.
+  intros D. pose proof SHd. pose proof OHd. pose proof HEd. pose proof WO.
+  rewrite chain_sub by lia. unfold bs3. apply subN_updN_inside; lia.
+Qed.
+
+Local Lemma rf sz off v : off + N.of_nat sz <= lenN e' -> off < 4294967296 * 4 -> fieldN e' off sz = v ->
+  read_field true m' sz e' off = Ok v.
+Proof.
+  intros L B <-. apply read_field_eq; [exact L|].
+  assert (N.of_nat sz <= lenN e') by lia. pose proof Le'. lia.
+Qed.
+
+Local Lemma f_ptr : fieldN e' (hend + 20) 4 = noff.
+Proof.
+  pose proof SHd. pose proof OHd. pose proof HEd. pose proof WO. pose proof LXn. pose proof LB3.
+  pose proof LQ1. pose proof LQ2.
+  unfold fieldN. change (N.of_nat 4) with 4. rewrite NF. rewrite subN_app_l by (rewrite LQ; lia). unfold Q.
+  rewrite subN_updN_disj by lia. unfold Q2.
+  rewrite subN_updN_disj by lia. unfold Q1.
+  rewrite <- LXn. rewrite subN_updN_same by lia. unfold Xn. apply decode_encode_4. exact NO2.
+Qed.
+
+Local Lemma old_name j : j < n -> exists s, read_string e' (sh + j * 40) 8 = Ok s /\ s <> name.
+Proof.
+  intros Hj. pose proof SHd. pose proof OHd. pose proof HEd. pose proof WO. pose proof Le'.
+  assert (R : read_string e' (sh + j * 40) 8 = read_string e (sh + j * 40) 8).
+  { apply read_string_sub; change (N.of_nat 8) with 8; try lia.
+    apply hdr_sub; try lia; try (intros j' Hj'; destruct (N.le_gt_cases j j'); [left | right]; lia). }
+  destruct (read_string_enough e (sh + j * 40) 8) as [s Hs]; [change (N.of_nat 8) with 8; lia | lia|].
+  exists s. split; [now rewrite R|]. intros ->. apply NOSEC. exists j. split; [exact Hj | exact Hs].
+Qed.
+
+Local Lemma new_name : read_string e' hend 8 = Ok name.
+Proof.
+  pose proof SHd. pose proof OHd. pose proof HEd. pose proof WO. pose proof Le'.
+  unfold read_string. rewrite flen_eq.
+  replace (hend <? lenN e') with true by (symmetry; apply N.ltb_lt; lia).
+  rewrite (dropN_split e' hend (hend + 8)) by lia.
+  replace (hend + 8 - hend) with 8 by lia.
+  replace hend with (hend + 0) at 1 by lia. rewrite newhdr_sub by lia. rewrite HN.
+  destruct (N.eq_dec (lenN name) 8) as [E8|N8].
+  - rewrite E8. cbn [N.sub zerosN N.to_nat repeat]. replace (8 - 8) with 0 by lia. cbn [zerosN N.to_nat repeat].
+    rewrite app_nil_r. replace 8%nat with (length name) by (unfold lenN in E8; lia). apply rs_cap. exact NOK.
+  - replace (8 - lenN name) with (1 + (7 - lenN name)) by lia. rewrite zerosN_split.
+    change (zerosN 1) with [zero]. rewrite <- !app_assoc. cbn [app].
+    apply rs_name; [exact NOK | unfold lenN in LN; lia].
+Qed.
+
+Local Lemma loop_from i : i <= n ->
+  extract_pe_loop true m' e' name sh i (N.to_nat (n + 1 - i)) = Ok (p ++ Zp).
+Proof.
+  intros Hi. remember (N.to_nat (n - i)) as d eqn:Hd'.
+  revert i Hi Hd'. induction d as [|d IH]; intros i Hi Hd'.
+  - assert (i = n) by lia. subst i. replace (N.to_nat (n + 1 - n)) with 1%nat by lia.
+    cbn [extract_pe_loop]. cbv zeta. change (sh + n * 40) with hend.
+    pose proof SHd. pose proof OHd. pose proof HEd. pose proof WO. pose proof Le' as Le. pose proof FHd.
+    pose proof SIG32. pose proof SOH16.
+    rewrite new_name. cbn [obind]. rewrite str_eqb_refl.
+    rewrite (rf 4 (hend + 16) nraw).
+    2:{ change (N.of_nat 4) with 4. lia. }
+    2:{ lia. }
+    2:{ unfold fieldN. change (N.of_nat 4) with 4. rewrite newhdr_sub by lia. exact HR. }
+    cbn [obind].
+    rewrite (rf 4 (hend + 20) noff).
+    2:{ change (N.of_nat 4) with 4. lia. }
+    2:{ lia. }
+    2:{ exact f_ptr. }
+    cbn [obind]. unfold split_trunc. rewrite flen_eq.
+    replace (noff <=? lenN e') with true by (symmetry; apply N.leb_le; lia).
+    f_equal. rewrite NF, app_assoc.
+    pose proof (dropN_app_exact (Q ++ Zs) (p ++ Zp)) as DA. rewrite LZs in DA. rewrite DA.
+    rewrite flen_eq, lenN_app. unfold Zp at 1. rewrite lenN_zerosN.
+    replace (nraw <? lenN p + (nraw - lenN p)) with false by (symmetry; apply N.ltb_ge; lia).
+    reflexivity.
+  - assert (i < n) as Hlt by lia.
+    replace (N.to_nat (n + 1 - i)) with (S (N.to_nat (n + 1 - (i + 1)))) by lia.
+    cbn [extract_pe_loop]. cbv zeta.
+    destruct (old_name i Hlt) as (s & Hs & Hne). rewrite Hs. cbn [obind].
+    replace (str_eqb s name) with false by (symmetry; now apply str_eqb_neq).
+    apply IH; lia.
+Qed.
+
+Lemma pe_roundtrip_core : extract_pe m' e' name = Ok (p ++ zerosN (nraw - lenN p)).
+Proof.
+  unfold extract_pe, extract_pe_gen, validate_pe.
+  pose proof SHd. pose proof OHd. pose proof HEd. pose proof WO. pose proof WS. pose proof Le' as Le. pose proof FHd.
+  pose proof SIG32. pose proof SOH16.
+  rewrite (rf 4 60 (pe_sig e)).
+  2:{ change (N.of_nat 4) with 4. lia. }
+  2:{ lia. }
+  2:{ unfold fieldN. change (N.of_nat 4) with 4. rewrite hdr_sub by (try (intros j Hj); lia). reflexivity. }
+  cbn [obind].
+  rewrite (rf 4 (pe_sig e) 17744).
+  2:{ change (N.of_nat 4) with 4. lia. }
+  2:{ lia. }
+  2:{ rewrite <- SG. unfold fieldN. change (N.of_nat 4) with 4. rewrite hdr_sub by (try (intros j Hj); lia). reflexivity. }
+  cbn [obind]. change (17744 =? 17744) with true. cbn [negb]. cbv iota. cbn [obind].
+  change (pe_sig e + 4) with fh.
+  rewrite (rf 2 (fh + 2) (n + 1)).
+  2:{ change (N.of_nat 2) with 2. lia. }
+  2:{ lia. }
+  2:{ rewrite <- S6. unfold fieldN. change (N.of_nat 2) with 2. rewrite chain_sub by lia.
+      unfold bs3. rewrite subN_updN_disj by lia. reflexivity. }
+  cbn [obind].
+  rewrite (rf 2 (fh + 16) soh).
+  2:{ change (N.of_nat 2) with 2. lia. }
+  2:{ lia. }
+  2:{ unfold fieldN. change (N.of_nat 2) with 2. rewrite hdr_sub by (try (intros j Hj); lia). reflexivity. }
+  cbn [obind]. cbv zeta. change (fh + 20 + soh) with sh.
+  replace (N.to_nat (n + 1)) with (N.to_nat (n + 1 - 0)) by (f_equal; lia).
+  apply loop_from. lia.
+Qed.
+
+(* every old section header is kept, except that PointerToRawData moves with the contents *)
+Lemma pe_sections_core :
+  (forall j, j < n -> fieldN e' (sh + j * 40 + 20) 4 = pe_ptr e j + shift) /\
+  (forall j x k, j < n -> x + k <= 20 \/ (24 <= x /\ x + k <= 40) -> subN e' (sh + j * 40 + x) k = subN e (sh + j * 40 + x) k) /\
+  (forall o k, hend + (if shift =? 0 then 40 else 0) <= o -> o + k <= lenN e -> subN e' (o + shift) k = subN e o k) /\
+  (* the rest of the headers: everything below the section headers except NumberOfSections, SizeOfImage, SizeOfHeaders *)
+  (forall o k, o + k <= sh -> (o + k <= fh + 2 \/ fh + 4 <= o) -> (o + k <= oh + 56 \/ oh + 64 <= o) -> subN e' o k = subN e o k) /\
+  fieldN e' (fh + 2) 2 = n + 1.
+Proof.
+  pose proof SHd. pose proof OHd. pose proof HEd. pose proof WO. pose proof LQ1. pose proof LQ2. pose proof LQ.
+  pose proof LXn. pose proof LB3.
+  split; [|split; [|split; [|split]]].
+  - intros j Hj. rewrite <- S8 by exact Hj. unfold fieldN. change (N.of_nat 4) with 4.
+    rewrite chain_sub by lia. unfold bs3. rewrite subN_updN_disj by lia. reflexivity.
+  - intros j x k Hj Hx. apply hdr_sub; try lia;
+    try (intros j' Hj'; destruct (N.lt_trichotomy j j') as [G|[->|G]]; lia).
+  - intros o k D1 D2.
+    assert (hend + 40 <= o + shift /\ hend <= o) as [? ?].
+    { destruct (N.eqb_spec shift 0) as [E0|NE0]; [lia|]. destruct SHIFT as [?|G]; lia. }
+    rewrite NF. rewrite subN_app_l by (rewrite LQ; lia). unfold Q.
+    rewrite subN_updN_disj by lia. unfold Q2. rewrite subN_updN_disj by lia. unfold Q1.
+    rewrite subN_updN_disj by lia. unfold bs3. rewrite subN_updN_disj by lia. now apply S7.
+  - intros o k D1 D2 D3. apply hdr_sub; try lia; try (intros j Hj; left; lia).
+  - rewrite <- S6. unfold fieldN. change (N.of_nat 2) with 2. rewrite chain_sub by lia.
+    unfold bs3. rewrite subN_updN_disj by lia. reflexivity.
+Qed.
+End Roundtrip.
+
+Lemma pe_roundtrip m m' e name p e' :
+  wf_pe e -> ~ pe_has_section e name -> pe_name_ok name ->
+  add_pe m e name p = Ok e' ->
+  exists pad, extract_pe m' e' name = Ok (p ++ zerosN pad) /\ pad < pe_fa e.
+Proof.
+  intros W NS NK H.
+  destruct (add_pe_shape m e name p e' W H) as (bs2 & shift & hdr4 & nraw & noff & Y & Z & A1 & A2 & A3 & A4 & A5 &
+    A6 & A7 & A8 & A9 & A10 & A11 & A12 & A13 & A14 & A15 & A16 & A17 & A18 & A19 & A20 & A21 & A22 & A23 & ->).
+  exists (nraw - lenN p). split; [|exact A18].
+  eapply (pe_roundtrip_core m' e name p bs2 hdr4 Y Z shift nraw noff); eauto.
+Qed.
+
+Lemma pe_sections m e name p e' :
+  wf_pe e -> add_pe m e name p = Ok e' ->
+  let fh := pe_fh e in let oh := pe_oh e in let sh := pe_sh e in let n := pe_n e in let hend := pe_hend e in
+  exists shift, (shift = 0 \/ 40 <= shift) /\
+  (forall j, j < n -> fieldN e' (sh + j * 40 + 20) 4 = pe_ptr e j + shift) /\
+  (forall j x k, j < n -> x + k <= 20 \/ (24 <= x /\ x + k <= 40) -> subN e' (sh + j * 40 + x) k = subN e (sh + j * 40 + x) k) /\
+  (forall o k, hend + (if shift =? 0 then 40 else 0) <= o -> o + k <= lenN e -> subN e' (o + shift) k = subN e o k) /\
+  (forall o k, o + k <= sh -> (o + k <= fh + 2 \/ fh + 4 <= o) -> (o + k <= oh + 56 \/ oh + 64 <= o) -> subN e' o k = subN e o k) /\
+  fieldN e' (fh + 2) 2 = n + 1.
+Proof.
+  intros W H.
+  destruct (add_pe_shape m e name p e' W H) as (bs2 & shift & hdr4 & nraw & noff & Y & Z & A1 & A2 & A3 & A4 & A5 &
+    A6 & A7 & A8 & A9 & A10 & A11 & A12 & A13 & A14 & A15 & A16 & A17 & A18 & A19 & A20 & A21 & A22 & A23 & ->).
+  cbv zeta. exists shift. split; [exact A6|].
+  eapply pe_sections_core; eauto.
+Qed.
+
